@@ -12,12 +12,12 @@ let char_of_coq_ascii (Ascii.Ascii (b0, b1, b2, b3, b4, b5, b6, b7)) =
   let v b i = if b then 1 lsl i else 0 in
   Char.chr (v b0 0 + v b1 1 + v b2 2 + v b3 3 + v b4 4 + v b5 5 + v b6 6 + v b7 7)
 let coq_string_of s =
-  let r = ref String.EmptyString in
-  for i = Str_.length s - 1 downto 0 do r := String.String (coq_ascii_of_char s.[i], !r) done;
+  let r = ref String0.EmptyString in
+  for i = Str_.length s - 1 downto 0 do r := String0.String (coq_ascii_of_char s.[i], !r) done;
   !r
 let rec string_of_coq = function
-  | String.EmptyString -> ""
-  | String.String (c, r) -> Str_.make 1 (char_of_coq_ascii c) ^ string_of_coq r
+  | String0.EmptyString -> ""
+  | String0.String (c, r) -> Str_.make 1 (char_of_coq_ascii c) ^ string_of_coq r
 let raw_of_hex h =
   if h = "-" then "" else
   Str_.init (Str_.length h / 2) (fun i -> Char.chr (hexval h.[2*i] * 16 + hexval h.[2*i+1]))
